@@ -120,7 +120,7 @@ pub fn rg_case(with_crash: bool) -> BoxedStrategy<RgCase> {
 		// the crash selector addresses the last op
 		RgCase { ops, crash: Some((u16::MAX, n)) }
 	});
-	prop_oneof![2 => free, 1 => scripted].boxed()
+	prop_oneof![1 => free, 2 => scripted].boxed()
 }
 
 fn to_op(base: &Base, it: &Interp, op: &RgOp, next_root: &mut u16) -> Option<Op> {
